@@ -30,12 +30,17 @@ def catalogue(tier: str):
     # `release --all` (release_hold_point), then stop + restart
     rows += [('chain2-f2-hold-future+release-all',
               [('P1', shapes['chain2'])], 2, 'future')]
+    # a hold point configured in flow.cylc, moved by command, then restart
+    rows += [('chain2-f2-hpcfg2', [('P1', shapes['chain2'])], 2, 'hp')]
     if tier == 'thorough':
         rows += [('chain2-f2', [('P1', shapes['chain2'])], 2, 'all'),
                  ('prev-f3', [('P1', shapes['prev'])], 3, 'all')]
     out = []
     for name, secs, fcp, sub in rows:
-        sp = spec_from(secs, 1, fcp, name=name)
+        extra = {}
+        if name.endswith('-hpcfg2'):
+            extra = {'scheduling': {'hold after cycle point': 2}, 'hold': 2}
+        sp = spec_from(secs, 1, fcp, name=name, **extra)
         sp['first'] = sub
         out.append(sp)
     return out
